@@ -1,6 +1,7 @@
 package main
 
 import (
+	"go/constant"
 	"fmt"
 	"go/token"
 	"sort"
@@ -230,7 +231,9 @@ func (c *Ctx) entryConds(b *ssa.BasicBlock, ex *exprCtx) []string {
 			allTrue = false
 			break
 		}
-		out = append(out, ex.str(ifi.Cond))
+		for _, a := range orAtoms(ifi.Cond, 4) {
+			out = append(out, ex.str(a))
+		}
 	}
 	if allTrue {
 		return out
@@ -487,4 +490,31 @@ func convEquivalent(got, want string) bool {
 		return s
 	}
 	return norm(got) == norm(want)
+}
+
+// orAtoms flattens a boolean built by `a || b || …` (go/ssa: a phi whose constant-true edges come from
+// blocks that branch on an operand, plus the last operand) into its operands; any other value is its
+// own single atom.
+func orAtoms(v ssa.Value, depth int) []ssa.Value {
+	phi, ok := v.(*ssa.Phi)
+	if !ok || depth == 0 || !isBoolType(phi.Type()) {
+		return []ssa.Value{v}
+	}
+	var out []ssa.Value
+	for i, e := range phi.Edges {
+		pred := phi.Block().Preds[i]
+		if k, isK := e.(*ssa.Const); isK && k.Value != nil {
+			if !constant.BoolVal(k.Value) {
+				return []ssa.Value{v} // an && shape, not a pure disjunction
+			}
+			ifi, ok := pred.Instrs[len(pred.Instrs)-1].(*ssa.If)
+			if !ok || pred.Succs[0] != phi.Block() {
+				return []ssa.Value{v}
+			}
+			out = append(out, orAtoms(ifi.Cond, depth-1)...)
+			continue
+		}
+		out = append(out, orAtoms(e, depth-1)...)
+	}
+	return out
 }
